@@ -204,7 +204,7 @@ func (in *Interp) store(st *State, p Ptr, v Value) {
 	if p.Sym != nil {
 		panic("store through symbolic slice element")
 	}
-	if p.Obj < st.SharedBelow && st.SharedBelow > 0 {
+	if p.Obj < st.SharedBelow && st.SharedBelow > 0 && !in.harnessObjs[p.Obj] {
 		st.Effects = append(st.Effects, fmt.Sprintf("store to pre-existing object %d%s (%s) at %s", p.Obj, p.Path, in.objName(p.Obj), in.where(st)))
 	}
 	root := st.Heap[p.Obj]
